@@ -455,7 +455,7 @@ theorem keyinv_step {cfg : Config} {s : MState} {live : List Info} (h : Inv cfg.
   | addMod f mp ws => exact keyinv_addModule h k f mp ws
   | remove f => exact keyinv_remove h k f
   | hide f b => exact keyinv_setHidden k f b
-  | clear => exact keyinv_new
+  | clear => simp only [step, specStep]; rw [clear_eq_new]; exact keyinv_new
 
 theorem keyinv_run (cfg : Config) (ops : List Op) : KeyInv (run cfg ops) (specLive cfg ops) := by
   unfold run specLive
